@@ -66,6 +66,18 @@ func (p *ProjectionPlan) Batch(ctx *ExecuteCtx) ([][]Column, error) {
 	return p.processProjectionBatch(kvps, ctx)
 }
 
+// ownsFieldName tells whether a value cached under the name of field i belongs
+// to field i: a name refers to the first field that carries it, so a later
+// field with the same name must be computed from its own expression
+func (p *ProjectionPlan) ownsFieldName(i int) bool {
+	for j := 0; j < i; j++ {
+		if p.FieldNames[j] == p.FieldNames[i] {
+			return false
+		}
+	}
+	return true
+}
+
 func (p *ProjectionPlan) processProjectionBatch(chunk []KVPair, ctx *ExecuteCtx) ([][]Column, error) {
 	var (
 		nFields = len(p.Fields)
@@ -76,7 +88,7 @@ func (p *ProjectionPlan) processProjectionBatch(chunk []KVPair, ctx *ExecuteCtx)
 	)
 	for i := 0; i < nFields; i++ {
 		have = false
-		if ctx != nil {
+		if ctx != nil && p.ownsFieldName(i) {
 			fname := p.FieldNames[i]
 			cols[i], have = ctx.GetChunkFieldFinalResult(fname)
 		}
@@ -108,7 +120,7 @@ func (p *ProjectionPlan) processProjection(kvp KVPair, ctx *ExecuteCtx) ([]Colum
 	)
 	for i := 0; i < nFields; i++ {
 		have := false
-		if ctx != nil {
+		if ctx != nil && p.ownsFieldName(i) {
 			fname := p.FieldNames[i]
 			result, have = ctx.GetFieldResult(fname)
 		}
